@@ -426,6 +426,35 @@ func opFrUn(fails *[]string, a fr.Element) string {
 		assertf(fails, reduced(&y), "MulBy%d not reduced", c.k)
 		outs = append(outs, frHex(&y))
 	}
+	// order-related predicates against the integer value (independent big.Int oracle)
+	{
+		ab := a.Bytes()
+		va := new(big.Int).SetBytes(ab[:])
+		halfR := new(big.Int).Rsh(new(big.Int).Sub(rMod, big.NewInt(1)), 1)
+		x := a
+		assertf(fails, x.LexicographicallyLargest() == (va.Cmp(halfR) > 0), "LexicographicallyLargest disagrees with value > (r-1)/2")
+		var na fr.Element
+		na.Neg(&a)
+		assertf(fails, x.Cmp(&na) == va.Cmp(frBig(&na)), "Cmp(a, -a) disagrees with the integer comparison")
+		assertf(fails, na.Cmp(&x) == frBig(&na).Cmp(va), "Cmp(-a, a) disagrees with the integer comparison")
+		assertf(fails, x.IsZero() == (va.Sign() == 0), "IsZero disagrees with the value")
+		assertf(fails, x == a, "a predicate modified its operand")
+		reg := a
+		reg.FromMont()
+		assertf(fails, reg.IsUint64() == (reg[1]|reg[2]|reg[3] == 0), "IsUint64 disagrees with the limbs")
+		assertf(fails, x.BitLen() == limbsBig(&a).BitLen(), "BitLen disagrees with the limb value")
+		var dv, one fr.Element
+		one.SetOne()
+		dv.Div(&one, &a)
+		var iv fr.Element
+		iv.Inverse(&a)
+		assertf(fails, dv == iv, "Div(1, a) != Inverse(a)")
+		var tb big.Int
+		a.ToBigIntRegular(&tb)
+		assertf(fails, tb.Cmp(va) == 0, "ToBigIntRegular disagrees with Bytes")
+		rr := a.ToRegular() // value receiver: returns the converted copy
+		assertf(fails, rr == reg, "ToRegular differs from FromMont")
+	}
 	// Montgomery conversions and reduce
 	m := a
 	m.FromMont()
@@ -441,6 +470,16 @@ func opFrUn(fails *[]string, a fr.Element) string {
 	}
 	outs = append(outs, hx(le[:]))
 	return strings.Join(outs, " ")
+}
+
+// limbsBig is the integer the four limbs of the (Montgomery) representation spell
+func limbsBig(e *fr.Element) *big.Int {
+	v := new(big.Int)
+	for i := 3; i >= 0; i-- {
+		v.Lsh(v, 64)
+		v.Or(v, new(big.Int).SetUint64(e[i]))
+	}
+	return v
 }
 
 func opFrBatchInv(fails *[]string, v string) string {
@@ -487,9 +526,13 @@ func rerepresent(p banderwagon.Element, k uint64) banderwagon.Element {
 }
 
 func opTr(fails *[]string, label []byte, ops string) string {
-	run := func(variant uint64) []string {
+	run := func(variant uint64, reuse bool) []string {
 		tr := common.NewTranscript(string(label))
 		var outs []string
+		// reuse: the caller keeps ONE point variable and ONE scalar variable and overwrites them
+		// before every append (pointer identity of an argument must not matter)
+		scratchP := new(banderwagon.Element)
+		scratchS := new(fr.Element)
 		for i, it := range splitList(";", ops) {
 			f := strings.Split(it, ":")
 			switch f[0] {
@@ -514,13 +557,25 @@ func opTr(fails *[]string, label []byte, ops string) string {
 			case "s":
 				s := frFromHexBE(f[2])
 				keep := s
-				tr.AppendScalar(&s, mustUnhex(f[1]))
-				assertf(fails, s == keep, "AppendScalar modified the scalar")
+				if reuse {
+					*scratchS = s
+					tr.AppendScalar(scratchS, mustUnhex(f[1]))
+					assertf(fails, *scratchS == keep, "AppendScalar modified the scalar")
+				} else {
+					tr.AppendScalar(&s, mustUnhex(f[1]))
+					assertf(fails, s == keep, "AppendScalar modified the scalar")
+				}
 			case "p":
 				p := rerepresent(decodePoint(f[2]), variant*uint64(i+1))
 				keep := p
-				tr.AppendPoint(&p, mustUnhex(f[1]))
-				assertf(fails, p == keep, "AppendPoint modified the point")
+				if reuse {
+					*scratchP = p
+					tr.AppendPoint(scratchP, mustUnhex(f[1]))
+					assertf(fails, *scratchP == keep, "AppendPoint modified the point")
+				} else {
+					tr.AppendPoint(&p, mustUnhex(f[1]))
+					assertf(fails, p == keep, "AppendPoint modified the point")
+				}
 			case "c":
 				lab := mustUnhex(f[1])
 				c := tr.ChallengeScalar(lab)
@@ -535,9 +590,11 @@ func opTr(fails *[]string, label []byte, ops string) string {
 		}
 		return outs
 	}
-	a := run(0)
-	b := run(3) // same history, points in other representations
+	a := run(0, false)
+	b := run(3, false) // same history, points in other representations
 	assertf(fails, strings.Join(a, ",") == strings.Join(b, ","), "challenges depend on point representation or are not deterministic")
+	c := run(0, true) // same history, the caller reuses one point variable and one scalar variable
+	assertf(fails, strings.Join(a, ",") == strings.Join(c, ","), "challenges differ when the caller reuses one variable for successive points / scalars")
 	return joinWith(",", a)
 }
 
@@ -1175,14 +1232,22 @@ func okStr(ok bool, err error) string {
 
 func opIpa(fails *[]string, label []byte, poly string, z fr.Element) string {
 	ic := config()
-	a := parsePoly(poly)
+	a0 := parsePoly(poly)
+	a, chkA := guarded(fails, "CreateIPAProof polynomial", a0, fillFr)
 	keep := copyElems(a)
 	c := ic.Commit(a)
+	chkA()
 	trP := common.NewTranscript(string(label))
 	proof, err := ipa.CreateIPAProof(trP, ic, c, a, z)
+	chkA()
 	if err != nil {
 		return "noproof"
 	}
+	pl, chkPL := guarded(fails, "CheckIPAProof proof.L", proof.L, fillPt)
+	pr, chkPR := guarded(fails, "CheckIPAProof proof.R", proof.R, fillPt)
+	proof = ipa.IPAProof{L: pl, R: pr, A_scalar: proof.A_scalar}
+	defer chkPL()
+	defer chkPR()
 	for i := range a {
 		assertf(fails, a[i] == keep[i], "CreateIPAProof modified the polynomial at %d", i)
 	}
@@ -1218,8 +1283,18 @@ func opIpaVerify(fails *[]string, f []string) string {
 	cs := pointsOf(f[2])
 	z, y := frFromHexBE(f[3]), frFromHexBE(f[4])
 	proof := ipa.IPAProof{L: pointsOf(f[5]), R: pointsOf(f[6]), A_scalar: frFromHexBE(f[7])}
+	gl, chkL := guarded(fails, "CheckIPAProof proof.L", proof.L, fillPt)
+	gr, chkR := guarded(fails, "CheckIPAProof proof.R", proof.R, fillPt)
 	tr := common.NewTranscript(string(label))
-	ok, err := ipa.CheckIPAProof(tr, config(), cs[0], proof, z, y)
+	ok, err := ipa.CheckIPAProof(tr, config(), cs[0], ipa.IPAProof{L: gl, R: gr, A_scalar: proof.A_scalar}, z, y)
+	chkL()
+	chkR()
+	for i := range proof.L {
+		assertf(fails, i < len(gl) && gl[i] == proof.L[i], "CheckIPAProof modified proof.L[%d]", i)
+	}
+	for i := range proof.R {
+		assertf(fails, i < len(gr) && gr[i] == proof.R[i], "CheckIPAProof modified proof.R[%d]", i)
+	}
 	if err != nil {
 		assertf(fails, !ok, "CheckIPAProof returned true together with an error")
 		return "err"
@@ -1308,6 +1383,30 @@ func opMp(fails *[]string, label []byte, ops string) string {
 		y := f[o.z]
 		ys = append(ys, &y)
 	}
+	// every slice argument is a sub-slice of a larger caller buffer (guards checked after the calls)
+	var chks []func()
+	for i := range fs {
+		g, chk := guarded(fails, fmt.Sprintf("CreateMultiProof fs[%d]", i), fs[i], fillFr)
+		fs[i] = g
+		chks = append(chks, chk)
+	}
+	{
+		var chk func()
+		zs, chk = guarded(fails, "multiproof zs", zs, fillU8)
+		chks = append(chks, chk)
+		guardC, guardY := &banderwagon.Element{}, &fr.Element{}
+		Cs, chk = guarded(fails, "multiproof Cs", Cs, func(int) *banderwagon.Element { return guardC })
+		chks = append(chks, chk)
+		ys, chk = guarded(fails, "multiproof ys", ys, func(int) *fr.Element { return guardY })
+		chks = append(chks, chk)
+		fs, chk = guardedSlices(fails, "multiproof fs", fs)
+		chks = append(chks, chk)
+	}
+	defer func() {
+		for _, c := range chks {
+			c()
+		}
+	}()
 	// snapshots for purity
 	keepF := make([][]fr.Element, len(fs))
 	for i := range fs {
@@ -1385,6 +1484,16 @@ func opMpVerify(fails *[]string, f []string) string {
 		return Cs, ys, p
 	}
 	Cs, ys, p := mk(0)
+	{ // every slice handed to the verifier is a sub-slice of a larger caller buffer
+		var c1, c2, c3, c4, c5 func()
+		p.IPA.L, c1 = guarded(fails, "CheckMultiProof proof.IPA.L", p.IPA.L, fillPt)
+		p.IPA.R, c2 = guarded(fails, "CheckMultiProof proof.IPA.R", p.IPA.R, fillPt)
+		guardC, guardY := &banderwagon.Element{}, &fr.Element{}
+		Cs, c3 = guarded(fails, "CheckMultiProof Cs", Cs, func(int) *banderwagon.Element { return guardC })
+		ys, c4 = guarded(fails, "CheckMultiProof ys", ys, func(int) *fr.Element { return guardY })
+		zs, c5 = guarded(fails, "CheckMultiProof zs", zs, fillU8)
+		defer func() { c1(); c2(); c3(); c4(); c5() }()
+	}
 	tr := common.NewTranscript(string(label))
 	ok, err := multiproof.CheckMultiProof(tr, config(), p, Cs, ys, zs)
 	if err != nil {
